@@ -8,20 +8,21 @@ From S4.Spec Require Import JournalSpec.
 From S4.Proofs Require Import JournalWindow JournalExport JournalEndToEnd.
 Open Scope Z_scope.
 
-(* For every journal with non-decreasing receive times and every window with
-   representable bounds, the reader (seek + enumeration loop with the repaired,
+(* For every journal with non-decreasing, valid (positive: libsystemd VALID_REALTIME)
+   receive times and every window (bounds before 1970 included; only the u64 upper
+   side 2^64 is excluded), the reader (seek + enumeration loop with the repaired,
    strict stop test) hands to the printer exactly the in-window entries: each
    once, in journal order (the output IS the sub-list [window]). *)
 Theorem journal_out_correct :
   forall sd_seek_head sd_seek_realtime, J1_contract sd_seek_head sd_seek_realtime ->
-  forall j A B, nondecreasing (times j) -> bound_ok A -> bound_ok B ->
+  forall j A B, nondecreasing (times j) -> valid_realtimes (times j) -> bound_rep A -> bound_rep B ->
   journal_run sd_seek_head sd_seek_realtime stop_after A B j = window e_time A B j.
 Proof. exact journal_out_correct_l. Qed.
 Print Assumptions journal_out_correct.
 
 Theorem journal_out_each_once :
   forall sd_seek_head sd_seek_realtime, J1_contract sd_seek_head sd_seek_realtime ->
-  forall j A B, nondecreasing (times j) -> bound_ok A -> bound_ok B ->
+  forall j A B, nondecreasing (times j) -> valid_realtimes (times j) -> bound_rep A -> bound_rep B ->
   let out := journal_run sd_seek_head sd_seek_realtime stop_after A B j in
   (forall e, In e out <-> In e j /\ in_window A B (e_time e) = true) /\
   (NoDup j -> NoDup out) /\
@@ -32,7 +33,7 @@ Print Assumptions journal_out_each_once.
 (* bytes on stdout for any modelled rendering *)
 Theorem journal_stdout_correct :
   forall sd_seek_head sd_seek_realtime, J1_contract sd_seek_head sd_seek_realtime ->
-  forall r j A B, nondecreasing (times j) -> bound_ok A -> bound_ok B ->
+  forall r j A B, nondecreasing (times j) -> valid_realtimes (times j) -> bound_rep A -> bound_rep B ->
   journal_stdout sd_seek_head sd_seek_realtime stop_after r A B j
   = concat (map (render r) (window e_time A B j)).
 Proof. exact journal_stdout_correct_l. Qed.
@@ -51,12 +52,21 @@ Theorem journal_upper_bound_refuted :
 Proof. exact journal_upper_bound_refuted_l. Qed.
 Print Assumptions journal_upper_bound_refuted.
 
-(* a bound before 1970 wraps in the i64 -> u64 cast: [bound_ok] is necessary *)
+(* regression lemma: with the bound conversion before the repair (`as u64` without the
+   clamp) a bound before 1970 wrapped to a huge value *)
 Theorem journal_pre_epoch_bound_refuted :
-  exists j A B, nondecreasing (times j) /\
-    journal_run ref_seek_head ref_seek_realtime stop_after A B j <> window e_time A B j.
+  exists j A B, nondecreasing (times j) /\ valid_realtimes (times j) /\ bound_rep A /\ bound_rep B /\
+    journal_run_wrapping ref_seek_head ref_seek_realtime stop_after A B j <> window e_time A B j.
 Proof. exact journal_pre_epoch_bound_refuted_l. Qed.
 Print Assumptions journal_pre_epoch_bound_refuted.
+
+(* [valid_realtimes] is a necessary hypothesis (an entry stamped exactly 0, which
+   libsystemd never writes, would be printed for an upper bound before 1970) *)
+Theorem journal_zero_time_refuted :
+  exists j A B, nondecreasing (times j) /\ bound_rep A /\ bound_rep B /\
+    journal_run ref_seek_head ref_seek_realtime stop_after A B j <> window e_time A B j.
+Proof. exact journal_zero_time_refuted_l. Qed.
+Print Assumptions journal_zero_time_refuted.
 
 (* fields intact: parsing the export rendering gives back the stored fields, for
    arbitrary value bytes (full statement, repaired printer) *)
@@ -108,7 +118,7 @@ Print Assumptions cat_without_message.
    stored fields of exactly the in-window entries, in journal order *)
 Theorem journal_export_correct :
   forall sd_seek_head sd_seek_realtime, J1_contract sd_seek_head sd_seek_realtime ->
-  forall j A B, nondecreasing (times j) -> bound_ok A -> bound_ok B -> Forall wf_entry j ->
+  forall j A B, nondecreasing (times j) -> valid_realtimes (times j) -> bound_rep A -> bound_rep B -> Forall wf_entry j ->
   parse_export (journal_stdout sd_seek_head sd_seek_realtime stop_after RExport A B j)
   = POk (map export_fields (window e_time A B j)).
 Proof. exact journal_export_correct_l. Qed.
@@ -116,7 +126,7 @@ Print Assumptions journal_export_correct.
 
 Theorem journal_cat_correct :
   forall sd_seek_head sd_seek_realtime, J1_contract sd_seek_head sd_seek_realtime ->
-  forall j A B, nondecreasing (times j) -> bound_ok A -> bound_ok B ->
+  forall j A B, nondecreasing (times j) -> valid_realtimes (times j) -> bound_rep A -> bound_rep B ->
   journal_stdout sd_seek_head sd_seek_realtime stop_after RCat A B j
   = concat (map render_cat (window e_time A B j)).
 Proof. exact journal_cat_correct_l. Qed.
